@@ -27,7 +27,7 @@ DIMS = {
     "stack": ["base", "one", "three", "three_rev", "four"],
     "place": ["t", "id", "r90", "r180", "r30", "r45", "r1", "mx", "my", "md", "s2", "s05", "nu", "nu2", "sk", "out", "tiny", "tinycopy", "near", "off05", "far"],
     "donor_paint": ["red", "rgba", "rgba_op", "named", "omitted", "omitted_op", "opacity", "current", "current_op", "var", "var_op"],
-    "copy_paint": ["blue", "same", "black", "alpha", "current", "var", "lin_bbox", "lin_user", "rad_bbox", "rad_focal_fr"],
+    "copy_paint": ["blue", "same", "black", "alpha", "current", "var", "lin_bbox", "lin_user", "rad_bbox", "rad_focal_fr", "rad_user_gt"],
     "twin": ["none", "same_glyph", "cross_glyph"],
     "shared_grad": [False, True],
     "grad_twice": [False, True],
@@ -198,6 +198,10 @@ def mk(a):
             "lin_user": Linear("lg2", *U_(20, 10), *U_(80, 70), STOPS2, units="userSpaceOnUse"),
             "rad_bbox": Radial("rg2", 0.5, 0.5, 0.5, STOPS2),
             "rad_focal_fr": Radial("rg2", 0.5, 0.5, 0.5, STOPS2, fx=0.35, fy=0.4, fr=0.1),
+            # user-space circles under a non-uniform gradientTransform (the compiler splits it into a uniform part on the circles and a
+            # residual transform paint *with a translation*: a linear residual alone is invisible near the origin), centred in the far corner of the design box
+            "rad_user_gt": Radial("rg2", *U_(92, 8), 150 * (U_(1, 0)[0] - U_(0, 0)[0]), STOPS2, units="userSpaceOnUse",
+                                  gt=aff.mul(aff.tr(0, 45 * (U_(0, 1)[1] - U_(0, 0)[1])), aff.around(aff.sc(1, 0.5), *U_(0, 0)))),
         }[cpn]
 
     copy_paint, copy_paint_A = copy_paint_in(UB), copy_paint_in(U)
@@ -232,10 +236,11 @@ def mk(a):
       if pl == "tiny":
         copy_d = P(od, aff.mul(aff.tr(20, 10), aff.sc(1.3)))
       elif pl == "tinycopy":
-        # the reverse: a large donor and a copy 45 times smaller that sits near the font-space origin. With a
+        # the reverse: a large donor and a copy 45 times smaller, close enough to the font-space origin for the compensating
+        # translation to fit 16.16 but well above the baseline (a residual scale about the origin is invisible *at* the origin). With a
         # user-space gradient on the copy the compensating inverse scales the gradient's geometry past int16, so
         # nanoemoji has to carry it in a wrapping transform instead (the OverflowError route of write_font)
-        copy_d = P(od, aff.mul(aff.tr(12, 76), aff.sc(0.04)), nd=5)
+        copy_d = P(od, aff.mul(aff.tr(12, 30), aff.sc(0.04)), nd=5)
       else:
         copy_d = P(od, PL[pl])
         if pl in ("near", "off05", "far"):
